@@ -112,8 +112,40 @@ def triage_trusted(repo: Repo, site_key: str) -> bool:
         # the reason ("Parser.parse always passes itself to ParserState") is about the caller, not about the code
         # around the assert: it is re-checked as a premise on every run instead of being pinned by a digest
         return parser_is_set(repo)
+    if func.startswith("src/pest/stack.py::Stack."):
+        # every SAFE reason for a site inside Stack is about *when* it raises (empty stack: the callers' business,
+        # enumerated by the operator analysis) or about the snapshot bookkeeping (asserts): both are exactly what
+        # REP-INVARIANT decides - each method agrees with a stack of full copies, raises included, on every state
+        # satisfying the representation invariant.  The premise is re-checked instead of pinning the text.
+        return stack_agrees_with_reference(repo)
     want = _DIGESTS.get(site_key)
     return want is not None and want == function_digest(repo, func, expr)
+
+
+_STACK_OK: dict[int, bool] = {}
+
+
+def stack_agrees_with_reference(repo: Repo) -> bool:
+    key = id(repo)
+    if key not in _STACK_OK:
+        from .stackmodel import METHODS, check_method  # noqa: PLC0415
+
+        ok = True
+        try:
+            cls = repo.cls("src/pest/stack.py", "Stack")
+            for q in METHODS:
+                fn = next((n for n in reversed(cls.body) if isinstance(n, ast.FunctionDef) and n.name == q), None)  # the last definition: earlier ones are @overload stubs
+                if fn is None:
+                    ok = False
+                    break
+                _n, bad = check_method(fn, f"src/pest/stack.py::Stack.{q}", q, 3, 1)
+                if bad:
+                    ok = False
+                    break
+        except (AnalysisError, KeyError):
+            ok = False
+        _STACK_OK[key] = ok
+    return _STACK_OK[key]
 
 
 def parser_is_set(repo: Repo) -> bool:
